@@ -111,6 +111,44 @@ func (s State) String() string {
 	}
 }
 
+// startupRootKeys is the trust set a new process starts with: the
+// configured keys minus every key whose revocation an earlier process
+// recorded — in the tombstone store, or as a Revoked/Removed marker in
+// the state file when that was the only write that landed — and minus
+// keys configured with the REVOKE bit. RFC 5011 revocation is permanent;
+// a restart with a stale configuration must not trust the key again for
+// the time it takes the first refresh to run. An unreadable tombstone
+// store fails closed, as it does in AutoTA.
+func startupRootKeys(dir string, configured []dns.RR) []dns.RR {
+	tombstones, err := readTombstones(filepath.Join(dir, tombstoneFile))
+	if err != nil {
+		zlog.Error("Trust anchor tombstones file unreadable — starting with an empty trust set", "error", err.Error())
+		return nil
+	}
+	revoked := make(map[string]bool, len(tombstones))
+	for fp := range tombstones {
+		revoked[fp] = true
+	}
+	if state, err := readFromTAFile(filepath.Join(dir, stateFile)); err == nil {
+		for _, ta := range state {
+			if ta != nil && (ta.State == StateRevoked || ta.State == StateRemoved) {
+				revoked[dnskeyMaterialFP(ta.DNSKey)] = true
+			}
+		}
+	}
+	keys := make([]dns.RR, 0, len(configured))
+	for _, rr := range configured {
+		if dnskey, ok := rr.(*dns.DNSKEY); ok {
+			if dnskey.Flags&DNSKEYFlagRevoke != 0 || revoked[dnskeyMaterialFP(dnskey)] {
+				zlog.Warn("Configured trust anchor was revoked — not trusted", "keytag", dnssec.KeyTag(dnskey))
+				continue
+			}
+		}
+		keys = append(keys, rr)
+	}
+	return keys
+}
+
 func (r *Resolver) AutoTA() {
 	refreshResult := taRefreshValidationError
 	defer func() {
